@@ -210,24 +210,27 @@ theorem constrained_monotonic_dominance (monos : List Int) (md : Pairs) (w0 : Li
   exact monotonic_dominance_step k b los his x c.1 c.2 hd hw h δ hδ hd0 hd1 hw0 hw1
 
 /-- **C20 T2 (range dominance) in the constraint's own terms.** If a kernel satisfies the scaled
-inequality the constraint enforces, `scalings_w · k_w ≤ scalings_d · k_d` with
-`scalings = ±(input_max − input_min)` (`C06.linear_range_dominance`), then for an increasing pair
+inequality the constraint enforces for a listed pair `(d, w) ∈ rd`,
+`scalings_w · k_w ≤ scalings_d · k_d` with the scalings of `project` — `±(input_max − input_min)` on
+the dimensions of the range-dominance pairs (`C06.linear_range_dominance`; since fix 44c9e89 the
+other dimensions keep `±1`, which this statement never reads) — then for an increasing pair
 the rise, and for a decreasing pair the drop, across the dominant input's full range is at least
 that across the weak input's full range. -/
-theorem constrained_range_dominance (monos : List Int) (k : List Rat) (b : Option Rat)
-    (los his : List (Option Rat)) (x y : List Rat) (d w : Nat) (hdm : d < monos.length)
+theorem constrained_range_dominance (monos : List Int) (rd : Pairs) (k : List Rat) (b : Option Rat)
+    (los his : List (Option Rat)) (x y : List Rat) (d w : Nat) (hmem : (d, w) ∈ rd) (hdm : d < monos.length)
     (hwm : w < monos.length) (hd : d < x.length) (hw : w < y.length) (ld hd' lw hw' : Rat)
     (e1 : getO los d = some ld) (e2 : getO his d = some hd') (e3 : getO los w = some lw)
     (e4 : getO his w = some hw') (b1 : ld ≤ hd') (b2 : lw ≤ hw')
-    (hk : getV (scalings monos los his) w * getV k w ≤ getV (scalings monos los his) d * getV k d) :
+    (hk : getV (scalings monos rd los his) w * getV k w ≤ getV (scalings monos rd los his) d * getV k d) :
     (getM monos d = 1 → getM monos w = 1 →
       call k b los his (y.set w hw') - call k b los his (y.set w lw) ≤
         call k b los his (x.set d hd') - call k b los his (x.set d ld)) ∧
     (getM monos d = -1 → getM monos w = -1 →
       call k b los his (y.set w lw) - call k b los his (y.set w hw') ≤
         call k b los his (x.set d ld) - call k b los his (x.set d hd')) := by
-  rw [scalings_spec monos los his hdm, scalings_spec monos los his hwm, e1, e2, e3, e4] at hk
-  simp only [rangeOf] at hk
+  rw [scalings_spec monos rd los his hdm, scalings_spec monos rd los his hwm, (inPairs_of_mem hmem).1,
+    (inPairs_of_mem hmem).2, e1, e2, e3, e4] at hk
+  simp only [rangeOf, if_true] at hk
   constructor
   · intro m1 m2
     rw [m1, m2] at hk
